@@ -429,4 +429,4 @@ def run(ctx):
     rule_sinks(ctx)
     rule_selection(ctx)
     rule_uses(ctx)
-    ctx.include("C09.6", "prerequisite shared with C14: phi insertion is iterated, renaming order and scope pairing, phi identity (a missing phi disconnects an assignment from its later reads)", c14.rule_phi_insertion, c14.rule_phis_and_locals)
+    ctx.include("C09.6", "prerequisite shared with C14: phi insertion is iterated, renaming order and scope pairing, phi identity (a missing phi disconnects an assignment from its later reads)", c14.rule_phi_insertion, c14.rule_phis_and_locals, c14.rule_plumbing)
